@@ -27,6 +27,8 @@ type SMT struct {
 	SplitTail bool
 	// SplitExt: additionally the join-of-parts, separator-is-prefix and last-part facts (contract flag `splitext`)
 	SplitExt bool
+	// SplitRec: strings.Split/Join are related through the recursive function join_from (contract flag `splitrec`)
+	SplitRec bool
 	// concrete type tags
 	tags map[string]int
 	// used sentinel errors
@@ -164,6 +166,16 @@ func (b *SMT) DeclFun(name string, args []string, ret string) {
 	}
 	b.declared["fun:"+name] = true
 	b.lines = append(b.lines, fmt.Sprintf("(declare-fun %s (%s) %s)", name, strings.Join(args, " "), ret))
+}
+
+// JoinFrom declares join_from(a, sep, i): the elements a[i:] joined by sep (the definition of strings.Join,
+// written recursively from the left).
+func (b *SMT) JoinFrom() {
+	if b.declared["fun:join_from"] {
+		return
+	}
+	b.declared["fun:join_from"] = true
+	b.lines = append(b.lines, `(define-fun-rec join_from ((a (Slice String)) (sep String) (i Int)) String (ite (or (< i 0) (>= i (s_len a))) "" (ite (= i (- (s_len a) 1)) (select (s_arr a) i) (str.++ (select (s_arr a) i) sep (join_from a sep (+ i 1))))))`)
 }
 
 func (b *SMT) Script() string { return strings.Join(simplifyScript(b.lines), "\n") + "\n" }
